@@ -2,7 +2,7 @@
 From Oak Require Import Spec.LegacySpec Spec.LegacySpec2 Proofs.LegacyProofs Proofs.LegacyInv Proofs.LegacyHeap
   Proofs.LegacyDetach Proofs.LegacyAttach Proofs.LegacyAttach2 Proofs.LegacyAttach3 Proofs.LegacyConstruct
   Proofs.LegacyConstruct2 Proofs.LegacyDup Proofs.LegacyDup2 Proofs.LegacyHistory Proofs.LegacyFrames2
-  Proofs.LegacyReplace.
+  Proofs.LegacyReplace Proofs.LegacyRemove Proofs.LegacyRemove2 Proofs.LegacyRemoveSeq3.
 From Coq Require Import List String Ascii ZArith Bool Arith Lia.
 Import ListNotations.
 
@@ -41,7 +41,11 @@ Section Step.
         * destruct G as [Hp [Hd HG]]. eapply inv2_step_replace_with_root; eassumption.
         * simpl in E. destruct (op_replace_with H ct s a (Some n)); simpl in E; inversion E; subst. exact HI.
       + destruct ob as [|b|r|o made|e|]; try contradiction.
-        * eapply inv2_step_replace_with_none_root; eassumption.
+        * destruct G as [Hp|[Hl [Ha [p [f [Hp [Hpf Hn]]]]]]].
+          -- eapply inv2_step_replace_with_none_root; eassumption.
+          -- destruct (c_pi (cellD s a)) as [ix|] eqn:Hpi.
+             ++ eapply inv2_step_replace_with_none_seq; eassumption.
+             ++ eapply inv2_step_replace_with_none_child; eassumption.
         * destruct e; try contradiction. rewrite (replace_with_none_rejected H ct _ _ _ E). exact HI.
         * simpl in E. destruct (op_replace_with H ct s a None); simpl in E; inversion E; subst. exact HI.
     - simpl in E. destruct (op_duplicate H ct d s a) as [s1 r|s1 e|] eqn:Ed; simpl in E; inversion E; subst;
